@@ -106,4 +106,36 @@ theorem default_exact (cap : Bool) (env : Env) (ws : List Str) (st : Stages)
     exact hsne hp.2.symm
 
 
+/-- with plain settings the returned text is always accepted by the regex parser (no hypothesis on the test cases
+beyond the segmentation contract) -/
+theorem default_valid (cap : Bool) (env : Env) (ws : List Str) (st : Stages)
+    (h : regExpFrom (cfgPlain cap) env ws = .ok st) (hseg : ∀ w ∈ ws, SegOK env w) :
+    ∃ P, Spec.parse (fmtRegExp (cfgPlain cap) st.finalAst) = some (⟨false, false⟩, P) := by
+  have hci : (cfgPlain cap).ci = false := rfl
+  have hanch : ((cfgPlain cap).noStart && (cfgPlain cap).noEnd) = false := rfl
+  simp only [regExpFrom, hci, hanch, Bool.false_eq_true, ite_false] at h
+  have hseg' : ∀ w ∈ sortCases ws, SegOK env w := fun w hw => hseg w ((sortCases_mem' ws w).mp hw)
+  obtain ⟨hcl, hpl⟩ := clusters_plainBs cap env (sortCases ws) hseg'
+  generalize hcls : graphemeClusters (cfgPlain cap) env (sortCases ws) = cls at h hcl
+  have hclP : ∀ cl ∈ cls, PlainBs cl := by
+    intro cl hc
+    rw [hcl] at hc
+    obtain ⟨w, hw, rfl⟩ := List.mem_map.mp hc
+    exact (hpl w hw).1
+  have hsimple : ∀ cl ∈ cls, ∀ g ∈ cl, g.Simple := by
+    intro cl hc g hg
+    obtain ⟨x, _, _, _, rfl⟩ := hclP cl hc g hg
+    exact ofStr_simple x
+  obtain ⟨m, hm, hacc, hlab, hdfs, hN, hacyc⟩ := Grexv.min_struct cls hsimple (fun g => PlainBs [g])
+    (fun cl hc g hg => by
+      intro g' hg'
+      simp only [List.mem_singleton] at hg'
+      subst hg'
+      exact hclP cl hc g' hg)
+  rw [hm] at h
+  simp only [] at h
+  injection h with h
+  subst h
+  exact ⟨_, parse_printed cap _ (ofDfa_wf cap m hlab hdfs hacyc)⟩
+
 end Grexv
